@@ -1524,3 +1524,559 @@ theorem ForInv.keep {i j : Nat} {ix : Option Name} {a n c : Value} {l0 l : Optio
   · rw [vIndex, sget_keep hl hg _ _ hij]; exact h3 hx
 
 end C01
+
+namespace C01
+open StructuredS Machine Lower Structured
+
+variable {W : Type}
+
+/-! ## the iteration bound of `loopW` / `loopF` is never binding (each iteration burns fuel) -/
+
+section
+variable (cfg : Config W) (cv : CallAt W)
+
+theorem tick_congr (f : Nat) (st : State W) (k1 k2 : Nat → State W → TOut W)
+    (h : ∀ f' st1, f' < f → k1 f' st1 = k2 f' st1) : tick cfg f st k1 = tick cfg f st k2 := by
+  cases f with
+  | zero => rfl
+  | succ f => simp only [tick]; split
+              · rfl
+              · exact h f _ (Nat.lt_succ_self f)
+
+theorem stmtCond_congr (c : Expr) (f : Nat) (l : Option Env) (st : State W) (K1 K2 : Bool → Nat → State W → TOut W)
+    (h : ∀ b f' st', f' < f → K1 b f' st' = K2 b f' st') : stmtCond cfg cv c f l st K1 = stmtCond cfg cv c f l st K2 := by
+  unfold stmtCond; apply tick_congr; intro f' st1 hlt
+  cases evalExpr cfg (cv f') l c st1 with
+  | ok v s => exact h _ _ _ hlt
+  | err e s => rfl
+  | oof => rfl
+
+theorem stmtExpr_andThen_congr (n : Option Name) (e : Expr) (f : Nat) (l : Option Env) (st : State W)
+    (g1 g2 : Option Env → State W → Nat → TOut W) (h : ∀ l' st' f', f' < f → g1 l' st' f' = g2 l' st' f') :
+    andThen (stmtExpr cfg cv n e f l st) g1 = andThen (stmtExpr cfg cv n e f l st) g2 := by
+  rw [stmtExpr_eq, andThen_tick, andThen_tick]; apply tick_congr; intro f' st1 hlt
+  cases evalExpr cfg (cv f') l e st1 with
+  | ok v s => exact h _ _ _ hlt
+  | err e s => rfl
+  | oof => rfl
+
+theorem skip_andThen_congr (f : Nat) (l : Option Env) (st : State W)
+    (g1 g2 : Option Env → State W → Nat → TOut W) (h : ∀ l' st' f', f' < f → g1 l' st' f' = g2 l' st' f') :
+    andThen (stmtSkip cfg f l st) g1 = andThen (stmtSkip cfg f l st) g2 := by
+  unfold stmtSkip; rw [andThen_tick, andThen_tick]; apply tick_congr; intro f' st1 hlt
+  exact h _ _ _ hlt
+
+/-- what `loopW` does with the outcome of the body -/
+def wAfter (c : Expr) (body : Nat → Option Env → State W → TOut W) (n : Nat) (r : TOut W) : TOut W :=
+  match r with
+  | .norm l1 st1 f1 =>
+      stmtCond cfg cv c f1 l1 st1 fun taken f2 st2 =>
+        if taken then loopW cfg cv c body n f2 l1 st2 else stmtSkip cfg f2 l1 st2
+  | .brk l1 st1 f1 => .norm l1 st1 f1
+  | .cont l1 st1 f1 => loopW cfg cv c body n f1 l1 st1
+  | o => o
+
+theorem loopW_succ (c : Expr) (body : Nat → Option Env → State W → TOut W) (n f : Nat) (l : Option Env) (st : State W) :
+    loopW cfg cv c body (n+1) f l st = wAfter cfg cv c body n (body f l st) := by
+  rw [loopW]; cases body f l st <;> rfl
+
+/-- what `loopF` does with the outcome of the body -/
+def fAfter (i : Nat) (v ixv : Name) (hc : Bool) (body : Nat → Option Env → State W → TOut W) (n : Nat) (r : TOut W) : TOut W :=
+  match r with
+  | .norm l1 st1 f1 =>
+      if hc then andThen (stmtSkip cfg f1 l1 st1) (forAfter cfg cv i v ixv hc body n)
+      else forAfter cfg cv i v ixv hc body n l1 st1 f1
+  | .cont l1 st1 f1 => forAfter cfg cv i v ixv hc body n l1 st1 f1
+  | .brk l1 st1 f1 => .norm l1 st1 f1
+  | o => o
+
+theorem loopF_succ' (i : Nat) (v ixv : Name) (hc : Bool) (body : Nat → Option Env → State W → TOut W) (n f : Nat)
+    (l : Option Env) (st : State W) :
+    loopF cfg cv i v ixv hc body (n+1) f l st =
+      andThen (stmtExpr cfg cv (some v) (.function fnArrayGet [.variable (vValues i), .variable ixv]) f l st) fun l0 st0 f0 =>
+        fAfter cfg cv i v ixv hc body n (body f0 l0 st0) := by
+  rw [loopF_succ]; rfl
+
+/-- one more admissible iteration changes nothing once the bound exceeds the fuel -/
+theorem loopW_irrel (c : Expr) (body : Nat → Option Env → State W → TOut W) (hb : ∀ f l st, FuelOK f (body f l st)) :
+    ∀ n f l st, f < n → loopW cfg cv c body (n+1) f l st = loopW cfg cv c body n f l st := by
+  intro n
+  induction n with
+  | zero => intro f l st h; omega
+  | succ n ih =>
+    intro f l st hlt
+    rw [loopW_succ, loopW_succ]
+    have hb1 := hb f l st
+    cases hO : body f l st with
+    | norm l1 st1 f1 =>
+      rw [hO] at hb1; simp only [FuelOK] at hb1
+      simp only [wAfter]
+      apply stmtCond_congr; intro b f2 st2 h2
+      cases b
+      · rfl
+      · simp only [if_true]; exact ih f2 l1 st2 (by omega)
+    | cont l1 st1 f1 =>
+      rw [hO] at hb1; simp only [FuelOK] at hb1
+      exact ih f1 l1 st1 (by omega)
+    | brk l1 st1 f1 => rfl
+    | ret v s => rfl
+    | err e s => rfl
+    | oof => rfl
+
+theorem loopW_bound (c : Expr) (body : Nat → Option Env → State W → TOut W) (hb : ∀ f l st, FuelOK f (body f l st))
+    (f : Nat) (l : Option Env) (st : State W) :
+    ∀ d, loopW cfg cv c body (f+1+d) f l st = loopW cfg cv c body (f+1) f l st := by
+  intro d
+  induction d with
+  | zero => rfl
+  | succ d ih => rw [← ih]; exact loopW_irrel cfg cv c body hb (f+1+d) f l st (by omega)
+
+theorem forAfter_irrel (i : Nat) (v ixv : Name) (hc : Bool) (body : Nat → Option Env → State W → TOut W) (n f : Nat)
+    (ih : ∀ f' l st, f' < f → loopF cfg cv i v ixv hc body (n+1) f' l st = loopF cfg cv i v ixv hc body n f' l st)
+    (l : Option Env) (st : State W) :
+    forAfter cfg cv i v ixv hc body (n+1) l st f = forAfter cfg cv i v ixv hc body n l st f := by
+  unfold forAfter
+  apply stmtExpr_andThen_congr; intro l3 st3 f3 h3
+  apply stmtCond_congr; intro b f4 st4 h4
+  cases b
+  · rfl
+  · simp only [if_true]; exact ih f4 l3 st4 (by omega)
+
+theorem loopF_irrel (i : Nat) (v ixv : Name) (hc : Bool) (body : Nat → Option Env → State W → TOut W)
+    (hb : ∀ f l st, FuelOK f (body f l st)) :
+    ∀ n f l st, f < n → loopF cfg cv i v ixv hc body (n+1) f l st = loopF cfg cv i v ixv hc body n f l st := by
+  intro n
+  induction n with
+  | zero => intro f l st h; omega
+  | succ n ih =>
+    intro f l st hlt
+    rw [loopF_succ', loopF_succ']
+    apply stmtExpr_andThen_congr; intro l0 st0 f0 h0
+    have hb1 := hb f0 l0 st0
+    have hA : ∀ f1, f1 ≤ f0 → ∀ l1 st1, forAfter cfg cv i v ixv hc body (n+1) l1 st1 f1 =
+        forAfter cfg cv i v ixv hc body n l1 st1 f1 := fun f1 h1 l1 st1 =>
+      forAfter_irrel cfg cv i v ixv hc body n f1 (fun f' l st h' => ih f' l st (by omega)) l1 st1
+    cases hO : body f0 l0 st0 with
+    | norm l1 st1 f1 =>
+      rw [hO] at hb1; simp only [FuelOK] at hb1
+      simp only [fAfter]
+      split
+      · apply skip_andThen_congr; intro l2 st2 f2 h2; exact hA f2 (by omega) l2 st2
+      · exact hA f1 hb1 l1 st1
+    | cont l1 st1 f1 =>
+      rw [hO] at hb1; simp only [FuelOK] at hb1
+      exact hA f1 (by omega) l1 st1
+    | brk l1 st1 f1 => rfl
+    | ret v s => rfl
+    | err e s => rfl
+    | oof => rfl
+
+theorem loopF_bound (i : Nat) (v ixv : Name) (hc : Bool) (body : Nat → Option Env → State W → TOut W)
+    (hb : ∀ f l st, FuelOK f (body f l st)) (f : Nat) (l : Option Env) (st : State W) :
+    ∀ d, loopF cfg cv i v ixv hc body (f+1+d) f l st = loopF cfg cv i v ixv hc body (f+1) f l st := by
+  intro d
+  induction d with
+  | zero => rfl
+  | succ d ih => rw [← ih]; exact loopF_irrel cfg cv i v ixv hc body hb (f+1+d) f l st (by omega)
+end
+
+end C01
+
+namespace C01
+open StructuredS Machine Lower Structured
+
+variable {W : Type}
+
+/-! ## the loops as functions of the fuel alone -/
+
+section
+variable (cfg : Config W) (cv : CallAt W)
+
+/-- `loopW` as the `while` statement enters it: bound = fuel + 1 -/
+def loopW1 (c : Expr) (body : Nat → Option Env → State W → TOut W) (f : Nat) (l : Option Env) (st : State W) : TOut W :=
+  loopW cfg cv c body (f+1) f l st
+
+/-- after the body of a `while` iteration: test, next iteration or `label done` -/
+def wTest1 (c : Expr) (body : Nat → Option Env → State W → TOut W) (f1 : Nat) (l1 : Option Env) (st1 : State W) : TOut W :=
+  stmtCond cfg cv c f1 l1 st1 fun taken f2 st2 =>
+    if taken then loopW1 cfg cv c body f2 l1 st2 else stmtSkip cfg f2 l1 st2
+
+/-- what a `while` iteration does with the outcome of the body -/
+def wAfter1 (c : Expr) (body : Nat → Option Env → State W → TOut W) (r : TOut W) : TOut W :=
+  match r with
+  | .norm l1 st1 f1 => wTest1 cfg cv c body f1 l1 st1
+  | .brk l1 st1 f1 => .norm l1 st1 f1
+  | .cont l1 st1 f1 => loopW1 cfg cv c body f1 l1 st1
+  | o => o
+
+theorem loopW1_eq (c : Expr) (body : Nat → Option Env → State W → TOut W) (hb : ∀ f l st, FuelOK f (body f l st))
+    (f : Nat) (l : Option Env) (st : State W) :
+    loopW1 cfg cv c body f l st = wAfter1 cfg cv c body (body f l st) := by
+  unfold loopW1 wAfter1
+  rw [loopW_succ]
+  have hb1 := hb f l st
+  cases hO : body f l st with
+  | norm l1 st1 f1 =>
+    rw [hO] at hb1; simp only [FuelOK] at hb1
+    simp only [wAfter, wTest1]
+    apply stmtCond_congr; intro b f2 st2 h2
+    cases b
+    · rfl
+    · simp only [if_true, loopW1]
+      have := loopW_bound cfg cv c body hb f2 l1 st2 (f - f2 - 1)
+      rw [show f2 + 1 + (f - f2 - 1) = f by omega] at this
+      exact this
+  | cont l1 st1 f1 =>
+    rw [hO] at hb1; simp only [FuelOK] at hb1
+    simp only [wAfter, loopW1]
+    have := loopW_bound cfg cv c body hb f1 l1 st1 (f - f1 - 1)
+    rw [show f1 + 1 + (f - f1 - 1) = f by omega] at this
+    exact this
+  | brk l1 st1 f1 => rfl
+  | ret v s => rfl
+  | err e s => rfl
+  | oof => rfl
+
+/-- `loopF` as the `for` statement enters it -/
+def loopF1 (i : Nat) (v ixv : Name) (hc : Bool) (body : Nat → Option Env → State W → TOut W) (f : Nat) (l : Option Env)
+    (st : State W) : TOut W :=
+  loopF cfg cv i v ixv hc body (f+1) f l st
+
+/-- the footer of a `for` iteration as a function of the fuel alone -/
+def forAfter1 (i : Nat) (v ixv : Name) (hc : Bool) (body : Nat → Option Env → State W → TOut W)
+    (l2 : Option Env) (st2 : State W) (f2 : Nat) : TOut W :=
+  andThen (stmtExpr cfg cv (some ixv) (.binary .add (.variable ixv) (.number 1)) f2 l2 st2) fun l3 st3 f3 =>
+    stmtCond cfg cv (.binary .lt (.variable ixv) (.variable (vLength i))) f3 l3 st3 fun taken f4 st4 =>
+      if taken then loopF1 cfg cv i v ixv hc body f4 l3 st4 else stmtSkip cfg f4 l3 st4
+
+theorem forAfter_eq1 (i : Nat) (v ixv : Name) (hc : Bool) (body : Nat → Option Env → State W → TOut W)
+    (hb : ∀ f l st, FuelOK f (body f l st)) (n f2 : Nat) (h : f2 ≤ n) (l2 : Option Env) (st2 : State W) :
+    forAfter cfg cv i v ixv hc body n l2 st2 f2 = forAfter1 cfg cv i v ixv hc body l2 st2 f2 := by
+  unfold forAfter forAfter1
+  apply stmtExpr_andThen_congr; intro l3 st3 f3 h3
+  apply stmtCond_congr; intro b f4 st4 h4
+  cases b
+  · rfl
+  · simp only [if_true, loopF1]
+    have := loopF_bound cfg cv i v ixv hc body hb f4 l3 st4 (n - f4 - 1)
+    rw [show f4 + 1 + (n - f4 - 1) = n by omega] at this
+    exact this
+
+/-- what a `for` iteration does with the outcome of the body -/
+def fAfter1 (i : Nat) (v ixv : Name) (hc : Bool) (body : Nat → Option Env → State W → TOut W) (r : TOut W) : TOut W :=
+  match r with
+  | .norm l1 st1 f1 =>
+      if hc then andThen (stmtSkip cfg f1 l1 st1) (forAfter1 cfg cv i v ixv hc body)
+      else forAfter1 cfg cv i v ixv hc body l1 st1 f1
+  | .cont l1 st1 f1 => forAfter1 cfg cv i v ixv hc body l1 st1 f1
+  | .brk l1 st1 f1 => .norm l1 st1 f1
+  | o => o
+
+theorem loopF1_eq (i : Nat) (v ixv : Name) (hc : Bool) (body : Nat → Option Env → State W → TOut W)
+    (hb : ∀ f l st, FuelOK f (body f l st)) (f : Nat) (l : Option Env) (st : State W) :
+    loopF1 cfg cv i v ixv hc body f l st =
+      andThen (stmtExpr cfg cv (some v) (.function fnArrayGet [.variable (vValues i), .variable ixv]) f l st) fun l0 st0 f0 =>
+        fAfter1 cfg cv i v ixv hc body (body f0 l0 st0) := by
+  unfold loopF1
+  rw [loopF_succ']
+  apply stmtExpr_andThen_congr; intro l0 st0 f0 h0
+  have hb1 := hb f0 l0 st0
+  cases hO : body f0 l0 st0 with
+  | norm l1 st1 f1 =>
+    rw [hO] at hb1; simp only [FuelOK] at hb1
+    simp only [fAfter, fAfter1]
+    split
+    · apply skip_andThen_congr; intro l2 st2 f2 h2
+      exact forAfter_eq1 cfg cv i v ixv hc body hb f f2 (by omega) l2 st2
+    · exact forAfter_eq1 cfg cv i v ixv hc body hb f f1 (by omega) l1 st1
+  | cont l1 st1 f1 =>
+    rw [hO] at hb1; simp only [FuelOK] at hb1
+    exact forAfter_eq1 cfg cv i v ixv hc body hb f f1 (by omega) l1 st1
+  | brk l1 st1 f1 => rfl
+  | ret v s => rfl
+  | err e s => rfl
+  | oof => rfl
+end
+
+/-! ## converse direction: the toolkit -/
+
+theorem StRel.symm {s s' : State W} (h : StRel s s') : StRel s' s := ⟨h.1.symm, h.2.symm⟩
+
+theorem LRel.symm : ∀ {l l' : Option Env}, LRel l l' → LRel l' l
+  | none, none, _ => trivial
+  | some _, some _, h => Eq.symm h
+  | none, some _, h => h.elim
+  | some _, none, h => h.elim
+
+/-- a pure outcome read as a ticked outcome with `f` units of fuel left -/
+def _root_.StructuredS.SOut.withFuel : SOut W → Nat → TOut W
+  | .norm l s, f => .norm l s f
+  | .brk l s, f => .brk l s f
+  | .cont l s, f => .cont l s f
+  | .ret v s, _ => .ret v s
+  | .err e s, _ => .err e s
+  | .oof, _ => .oof
+
+/-- from some fuel on, the ticked computation `T` yields the outcome `o` and has consumed exactly `c` units -/
+def TConv (T : Nat → TOut W) (c : Nat) (o : SOut W) : Prop :=
+  ∃ N, c ≤ N ∧ ∀ f, N ≤ f → T f = o.withFuel (f - c)
+
+/-- machine-side outcome (fuel dropped) against pure-side outcome -/
+def ORel (lk : LK) (i : Nat) (l0 : Option Env) (g0 : Env) : SOut W → SOut W → Prop
+  | .norm l s, .norm l' s' => Post i l0 g0 l s l' s'
+  | .brk l s, .brk l' s' => lk ≠ .none ∧ Post i l0 g0 l s l' s'
+  | .cont l s, .cont l' s' => lk = .forL ∧ Post i l0 g0 l s l' s'
+  | .ret v s, .ret v' s' => v = v' ∧ StRel s s' ∧ GKeep l0 i g0 s.globals
+  | .err e s, .err e' s' => e = e' ∧ StRel s s'
+  | _, _ => False
+
+/-- converse simulation: if the pure side terminates with `o'`, the ticked side converges to a related outcome -/
+def CSim (lk : LK) (i : Nat) (l0 : Option Env) (g0 : Env) (T : Nat → TOut W) (o' : SOut W) : Prop :=
+  o' = .oof ∨ ∃ o c, ORel lk i l0 g0 o o' ∧ TConv T c o
+
+theorem ORel.weaken {lk : LK} {i j : Nat} {l0 l1 : Option Env} {g0 g1 : Env} {o o' : SOut W}
+    (hl : KeepL i l0 l1) (hg : GKeep l0 i g0 g1) (hij : i ≤ j) (h : ORel lk j l1 g1 o o') : ORel lk i l0 g0 o o' := by
+  cases o <;> cases o' <;> simp only [ORel] at h ⊢
+  · exact h.weaken hl hg hij
+  · exact ⟨h.1, h.2.weaken hl hg hij⟩
+  · exact ⟨h.1, h.2.weaken hl hg hij⟩
+  · exact ⟨h.1, h.2.1, hg.trans h.2.2 hl.isSome hij⟩
+  · exact h
+
+theorem CSim.weaken {lk : LK} {i j : Nat} {l0 l1 : Option Env} {g0 g1 : Env} {T : Nat → TOut W} {o' : SOut W}
+    (hl : KeepL i l0 l1) (hg : GKeep l0 i g0 g1) (hij : i ≤ j) (h : CSim lk j l1 g1 T o') : CSim lk i l0 g0 T o' := by
+  rcases h with h | ⟨o, c, hr, ht⟩
+  · exact Or.inl h
+  · exact Or.inr ⟨o, c, hr.weaken hl hg hij, ht⟩
+
+theorem TConv.congr {T T' : Nat → TOut W} {c : Nat} {o : SOut W} (h : TConv T c o) (he : ∀ f, T' f = T f) : TConv T' c o := by
+  obtain ⟨N, hc, h⟩ := h
+  exact ⟨N, hc, fun f hf => by rw [he, h f hf]⟩
+
+theorem CSim.congr {lk : LK} {i : Nat} {l0 : Option Env} {g0 : Env} {T T' : Nat → TOut W} {o' : SOut W}
+    (h : CSim lk i l0 g0 T o') (he : ∀ f, T' f = T f) : CSim lk i l0 g0 T' o' := by
+  rcases h with h | ⟨o, c, hr, ht⟩
+  · exact Or.inl h
+  · exact Or.inr ⟨o, c, hr, ht.congr he⟩
+
+/-- the state after a tick -/
+def tk (st : State W) : State W := { st with count := st.count + 1 }
+
+theorem tick_unlimited (cfg : Config W) (hmax : cfg.maxStatements = 0) (f : Nat) (st : State W)
+    (K : Nat → State W → TOut W) : tick cfg (f+1) st K = K f (tk st) := by
+  simp [tick, hmax, tk]
+
+theorem tconv_tick (cfg : Config W) (hmax : cfg.maxStatements = 0) {st : State W} {K : Nat → State W → TOut W} {c : Nat}
+    {o : SOut W} (h : TConv (fun f => K f (tk st)) c o) : TConv (fun f => tick cfg f st K) (c+1) o := by
+  obtain ⟨N, hc, h⟩ := h
+  refine ⟨N+1, by omega, fun f hf => ?_⟩
+  obtain ⟨f', rfl⟩ : ∃ f', f = f'+1 := ⟨f-1, by omega⟩
+  have h' := h f' (by omega)
+  simp only at h' ⊢
+  rw [tick_unlimited cfg hmax, h', Nat.add_sub_add_right]
+
+theorem csim_tick (cfg : Config W) (hmax : cfg.maxStatements = 0) {lk : LK} {i : Nat} {l0 : Option Env} {g0 : Env}
+    {st : State W} {K : Nat → State W → TOut W} {o' : SOut W}
+    (h : CSim lk i l0 g0 (fun f => K f (tk st)) o') : CSim lk i l0 g0 (fun f => tick cfg f st K) o' := by
+  rcases h with h | ⟨o, c, hr, ht⟩
+  · exact Or.inl h
+  · exact Or.inr ⟨o, c+1, hr, tconv_tick cfg hmax ht⟩
+
+end C01
+
+namespace C01
+open StructuredS Machine Lower Structured
+
+variable {W : Type}
+
+theorem tconv_andThen {T1 : Nat → TOut W} {c1 c2 : Nat} {l : Option Env} {s : State W} {o : SOut W}
+    {g : Option Env → State W → Nat → TOut W}
+    (h1 : TConv T1 c1 (.norm l s)) (h2 : TConv (fun f => g l s f) c2 o) : TConv (fun f => andThen (T1 f) g) (c1+c2) o := by
+  obtain ⟨N1, hc1, h1⟩ := h1; obtain ⟨N2, hc2, h2⟩ := h2
+  refine ⟨max N1 (N2 + c1), by omega, fun f hf => ?_⟩
+  have a := h1 f (by omega); have b := h2 (f - c1) (by omega)
+  simp only [SOut.withFuel] at a b ⊢
+  rw [a]; simp only [andThen]; rw [b, Nat.sub_sub]
+
+theorem tconv_andThen_stop {T1 : Nat → TOut W} {c1 : Nat} {o : SOut W} {g : Option Env → State W → Nat → TOut W}
+    (h1 : TConv T1 c1 o) (hn : ∀ l s, o ≠ .norm l s) : TConv (fun f => andThen (T1 f) g) c1 o := by
+  obtain ⟨N1, hc1, h1⟩ := h1
+  refine ⟨N1, hc1, fun f hf => ?_⟩
+  have a := h1 f hf
+  simp only at a ⊢
+  rw [a]
+  cases o <;> first | rfl | exact absurd rfl (hn _ _)
+
+/-- continue a converged computation: `Ψ` post-processes the ticked outcome -/
+theorem tconv_then {T1 : Nat → TOut W} {c1 c2 : Nat} {o1 o : SOut W} {Ψ : TOut W → TOut W}
+    (h1 : TConv T1 c1 o1) (h2 : TConv (fun f => Ψ (o1.withFuel f)) c2 o) : TConv (fun f => Ψ (T1 f)) (c1+c2) o := by
+  obtain ⟨N1, hc1, h1⟩ := h1; obtain ⟨N2, hc2, h2⟩ := h2
+  refine ⟨max N1 (N2 + c1), by omega, fun f hf => ?_⟩
+  have a := h1 f (by omega); have b := h2 (f - c1) (by omega)
+  simp only at a b ⊢
+  rw [a, b, Nat.sub_sub]
+
+theorem csim_then {lk lk' : LK} {i j : Nat} {l0 l1 : Option Env} {g0 g1 : Env} {T1 : Nat → TOut W} {o1' : SOut W}
+    {Ψ : TOut W → TOut W} {Γ : SOut W → SOut W} (h1 : CSim lk' j l1 g1 T1 o1') (hoof : Γ .oof = .oof)
+    (h2 : ∀ o o', ORel lk' j l1 g1 o o' → CSim lk i l0 g0 (fun f => Ψ (o.withFuel f)) (Γ o')) :
+    CSim lk i l0 g0 (fun f => Ψ (T1 f)) (Γ o1') := by
+  rcases h1 with h | ⟨o, c, hr, ht⟩
+  · subst h; exact Or.inl hoof
+  · rcases h2 o o1' hr with h | ⟨o2, c2, hr2, ht2⟩
+    · exact Or.inl h
+    · exact Or.inr ⟨o2, c + c2, hr2, tconv_then ht ht2⟩
+
+theorem csim_norm {lk : LK} {i : Nat} {l0 : Option Env} {g0 : Env} {l l' : Option Env} {s s' : State W}
+    (hp : Post i l0 g0 l s l' s') : CSim lk i l0 g0 (fun f => .norm l s f) (.norm l' s') :=
+  Or.inr ⟨.norm l s, 0, hp, 0, Nat.le_refl 0, fun _ _ => rfl⟩
+
+theorem csim_ret {lk : LK} {i : Nat} {l0 : Option Env} {g0 : Env} {v : Value} {s s' : State W}
+    (hs : StRel s s') (hk : GKeep l0 i g0 s.globals) : CSim lk i l0 g0 (fun _ => .ret v s) (.ret v s') :=
+  Or.inr ⟨.ret v s, 0, ⟨rfl, hs, hk⟩, 0, Nat.le_refl 0, fun _ _ => rfl⟩
+
+theorem csim_err {lk : LK} {i : Nat} {l0 : Option Env} {g0 : Env} {e : RtErr} {s s' : State W}
+    (hs : StRel s s') : CSim lk i l0 g0 (fun _ => .err e s) (.err e s') :=
+  Or.inr ⟨.err e s, 0, ⟨rfl, hs⟩, 0, Nat.le_refl 0, fun _ _ => rfl⟩
+
+section
+variable (cfg : Config W) (hmax : cfg.maxStatements = 0) (cv : CallAt W) {lk : LK} {i : Nat} {l0 : Option Env} {g0 : Env}
+include hmax
+
+theorem csim_andThen {T1 : Nat → TOut W} {o1' : SOut W} {g : Option Env → State W → Nat → TOut W}
+    {G : Option Env → State W → SOut W} (h1 : CSim lk i l0 g0 T1 o1')
+    (h2 : ∀ l s l' s', Post i l0 g0 l s l' s' → CSim lk i l0 g0 (fun f => g l s f) (G l' s')) :
+    CSim lk i l0 g0 (fun f => andThen (T1 f) g) (seqK G o1') := by
+  rcases h1 with h | ⟨o, c, hr, ht⟩
+  · subst h; exact Or.inl rfl
+  · cases o <;> cases o1' <;> simp only [ORel] at hr
+    · rename_i l s l' s'
+      rcases h2 l s l' s' hr with h | ⟨o2, c2, hr2, ht2⟩
+      · exact Or.inl h
+      · exact Or.inr ⟨o2, c + c2, hr2, tconv_andThen ht ht2⟩
+    · exact Or.inr ⟨.brk _ _, c, by simp only [seqK, ORel]; exact hr, tconv_andThen_stop ht (by intro _ _ h; cases h)⟩
+    · exact Or.inr ⟨.cont _ _, c, by simp only [seqK, ORel]; exact hr, tconv_andThen_stop ht (by intro _ _ h; cases h)⟩
+    · exact Or.inr ⟨.ret _ _, c, by simp only [seqK, ORel]; exact hr, tconv_andThen_stop ht (by intro _ _ h; cases h)⟩
+    · exact Or.inr ⟨.err _ _, c, by simp only [seqK, ORel]; exact hr, tconv_andThen_stop ht (by intro _ _ h; cases h)⟩
+
+theorem stmtExpr_andThen_step (n : Option Name) (e : Expr) (f : Nat) (l : Option Env) (st : State W)
+    (g : Option Env → State W → Nat → TOut W) :
+    andThen (stmtExpr cfg cv n e (f+1) l st) g =
+      match evalExpr cfg (cv f) l e (tk st) with
+      | .ok v s2 => g (assignO l s2 n v).1 (assignO l s2 n v).2 f
+      | .err er s => .err er s
+      | .oof => .oof := by
+  rw [stmtExpr_eq, andThen_tick, tick_unlimited cfg hmax]
+  cases evalExpr cfg (cv f) l e (tk st) <;> rfl
+
+theorem stmtCond_step (c : Expr) (f : Nat) (l : Option Env) (st : State W) (K : Bool → Nat → State W → TOut W) :
+    stmtCond cfg cv c (f+1) l st K =
+      match evalExpr cfg (cv f) l c (tk st) with
+      | .ok v s2 => K (cfg.host.truthy v s2.world) f s2
+      | .err er s => .err er s
+      | .oof => .oof := by
+  unfold stmtCond
+  rw [tick_unlimited cfg hmax]
+  cases evalExpr cfg (cv f) l c (tk st) <;> rfl
+
+/-- `name = e` followed by `g`, converse: `X` is what the pure side evaluated -/
+theorem csim_stmtExpr {n : Option Name} {e : Expr} {l : Option Env} {st : State W} {gx : Env}
+    {g : Option Env → State W → Nat → TOut W} {Φ : Out W → SOut W} {X : Out W}
+    (hX : OSimG false 0 gx X (fun m => evalExpr cfg (cv m) l e (tk st)))
+    (hkeep : ∀ m v s2, evalExpr cfg (cv m) l e (tk st) = .ok v s2 → KeepAll st.globals s2.globals)
+    (hΦe : ∀ er s, Φ (.err er s) = .err er s) (hΦo : Φ .oof = .oof)
+    (hg : ∀ v s2 s2', StRel s2 s2' → KeepAll st.globals s2.globals →
+      CSim lk i l0 g0 (fun f => g (assignO l s2 n v).1 (assignO l s2 n v).2 f) (Φ (.ok v s2'))) :
+    CSim lk i l0 g0 (fun f => andThen (stmtExpr cfg cv n e f l st) g) (Φ X) := by
+  cases X with
+  | oof => rw [hΦo]; exact Or.inl rfl
+  | err er sS =>
+    rcases hX with ⟨m, _, h0⟩ | ⟨sT, hs, N, hN⟩
+    · omega
+    · rw [hΦe]
+      refine Or.inr ⟨.err er sT, 0, ⟨rfl, hs.symm⟩, N+1, by omega, fun f hf => ?_⟩
+      obtain ⟨f', rfl⟩ : ∃ f', f = f'+1 := ⟨f-1, by omega⟩
+      have := hN f' (by omega)
+      simp only at this
+      simp only [stmtExpr_andThen_step cfg hmax, this]; rfl
+  | ok v sS =>
+    obtain ⟨sT, hs, _, N, hN⟩ := hX
+    have hk := hkeep N v sT (hN N (Nat.le_refl N))
+    rcases hg v sT sS hs.symm hk with h | ⟨o, c, hr, N2, hc, h2⟩
+    · exact Or.inl h
+    · refine Or.inr ⟨o, c+1, hr, max N N2 + 1, by omega, fun f hf => ?_⟩
+      obtain ⟨f', rfl⟩ : ∃ f', f = f'+1 := ⟨f-1, by omega⟩
+      have a := hN f' (by omega); have b := h2 f' (by omega)
+      simp only at a b
+      simp only [stmtExpr_andThen_step cfg hmax, a]
+      rw [b, Nat.add_sub_add_right]
+
+/-- a conditional jump, converse -/
+theorem csim_stmtCond {c : Expr} {l : Option Env} {st : State W} {gx : Env}
+    {K : Bool → Nat → State W → TOut W} {Φ : Out W → SOut W} {X : Out W}
+    (hX : OSimG false 0 gx X (fun m => evalExpr cfg (cv m) l c (tk st)))
+    (hkeep : ∀ m v s2, evalExpr cfg (cv m) l c (tk st) = .ok v s2 → KeepAll st.globals s2.globals)
+    (hΦe : ∀ er s, Φ (.err er s) = .err er s) (hΦo : Φ .oof = .oof)
+    (hK : ∀ v s2 s2', StRel s2 s2' → KeepAll st.globals s2.globals →
+      CSim lk i l0 g0 (fun f => K (cfg.host.truthy v s2.world) f s2) (Φ (.ok v s2'))) :
+    CSim lk i l0 g0 (fun f => stmtCond cfg cv c f l st K) (Φ X) := by
+  cases X with
+  | oof => rw [hΦo]; exact Or.inl rfl
+  | err er sS =>
+    rcases hX with ⟨m, _, h0⟩ | ⟨sT, hs, N, hN⟩
+    · omega
+    · rw [hΦe]
+      refine Or.inr ⟨.err er sT, 0, ⟨rfl, hs.symm⟩, N+1, by omega, fun f hf => ?_⟩
+      obtain ⟨f', rfl⟩ : ∃ f', f = f'+1 := ⟨f-1, by omega⟩
+      have := hN f' (by omega)
+      simp only at this
+      simp only [stmtCond_step cfg hmax, this]; rfl
+  | ok v sS =>
+    obtain ⟨sT, hs, _, N, hN⟩ := hX
+    have hk := hkeep N v sT (hN N (Nat.le_refl N))
+    rcases hK v sT sS hs.symm hk with h | ⟨o, c, hr, N2, hc, h2⟩
+    · exact Or.inl h
+    · refine Or.inr ⟨o, c+1, hr, max N N2 + 1, by omega, fun f hf => ?_⟩
+      obtain ⟨f', rfl⟩ : ∃ f', f = f'+1 := ⟨f-1, by omega⟩
+      have a := hN f' (by omega); have b := h2 f' (by omega)
+      simp only at a b
+      simp only [stmtCond_step cfg hmax, a]
+      rw [b, Nat.add_sub_add_right]
+
+theorem csim_skip {l : Option Env} {st : State W} {g : Option Env → State W → Nat → TOut W} {o' : SOut W}
+    (h : CSim lk i l0 g0 (fun f => g l (tk st) f) o') :
+    CSim lk i l0 g0 (fun f => andThen (stmtSkip cfg f l st) g) o' := by
+  unfold stmtSkip
+  simp only [andThen_tick]
+  exact csim_tick cfg hmax (K := fun f st1 => andThen (.norm l st1 f) g) h
+
+/-- machine-only statement whose value is known -/
+theorem csim_stmtExpr_pure {n : Option Name} {e : Expr} {l : Option Env} {st : State W}
+    {g : Option Env → State W → Nat → TOut W} {o' : SOut W} (val : Value)
+    (hE : ∀ m, evalExpr cfg (cv m) l e (tk st) = .ok val (tk st))
+    (hg : CSim lk i l0 g0 (fun f => g (assignO l (tk st) n val).1 (assignO l (tk st) n val).2 f) o') :
+    CSim lk i l0 g0 (fun f => andThen (stmtExpr cfg cv n e f l st) g) o' := by
+  rcases hg with h | ⟨o, c, hr, N2, hc, h2⟩
+  · exact Or.inl h
+  · refine Or.inr ⟨o, c+1, hr, N2 + 1, by omega, fun f hf => ?_⟩
+    obtain ⟨f', rfl⟩ : ∃ f', f = f'+1 := ⟨f-1, by omega⟩
+    have b := h2 f' (by omega)
+    simp only at b
+    simp only [stmtExpr_andThen_step cfg hmax, hE]
+    rw [b, Nat.add_sub_add_right]
+
+theorem csim_stmtCond_pure {c : Expr} {l : Option Env} {st : State W}
+    {K : Bool → Nat → State W → TOut W} {o' : SOut W} (val : Value)
+    (hE : ∀ m, evalExpr cfg (cv m) l c (tk st) = .ok val (tk st))
+    (hK : CSim lk i l0 g0 (fun f => K (cfg.host.truthy val (tk st).world) f (tk st)) o') :
+    CSim lk i l0 g0 (fun f => stmtCond cfg cv c f l st K) o' := by
+  rcases hK with h | ⟨o, c', hr, N2, hc, h2⟩
+  · exact Or.inl h
+  · refine Or.inr ⟨o, c'+1, hr, N2 + 1, by omega, fun f hf => ?_⟩
+    obtain ⟨f', rfl⟩ : ∃ f', f = f'+1 := ⟨f-1, by omega⟩
+    have b := h2 f' (by omega)
+    simp only at b
+    simp only [stmtCond_step cfg hmax, hE]
+    rw [b, Nat.add_sub_add_right]
+end
+
+end C01
